@@ -16,6 +16,7 @@ LEVEL = 'exploration'
 TECHNIQUE = 'bounded-exhaustive enumeration of (program x placement x frame_type x watches x path settings) and of object graphs, differential against an independent frame recorder; plus exhaustive interleavings (preemption<=1) of two collecting threads'
 RULE = ('programs = corpus (friendly ones), placements = every executable line and function, frame_type{single,all,no_frame} x '
         'watches{none,local,expression,failing} x path settings{app-root, include, exclude}; graphs = C05 family with default limits; '
+        'objects of application classes named like the types the collector treats specially (22 names x {local, inside a dict}); '
         'concurrent facet = 2 threads x all schedules with <=1 preemption at line granularity in every deep/ module; '
         'non-trivial = the snapshot carries at least one variable with children or a watch, or >1 frame')
 ASSUMPTIONS = ['order of variables/children is not compared',
@@ -45,10 +46,46 @@ def cases(tier, seed):
         specs = specs[::2]
     for i in range(0, len(specs), 16):
         out.append({'k': 'graphs', 'specs': specs[i:i + 16]})
+    # application classes that are merely named like the types the collector treats specially
+    for nm in NAMED:
+        for site in ('local', 'nested'):
+            out.append({'k': 'named', 'name': nm, 'site': site})
     nsh = 16
     for sh in range(nsh):
         out.append({'k': 'conc', 'bound': 1, 'shard': [sh, nsh]})
     return out
+
+
+NAMED = ['str', 'int', 'float', 'bool', 'type', 'module', 'unicode', 'long', 'NoneType', 'traceback', 'list_iterator', 'listiterator',
+         'list_reverseiterator', 'list', 'tuple', 'set', 'frozenset', 'dict', 'Exception', 'function', 'generator', 'Order']
+
+
+def named_case(ctx, desc):
+    """A plain object of a class of the application with that name: attributes v and items, its own __str__."""
+    cls = type(desc['name'], (), {'__str__': lambda self: 'text of ' + type(self).__name__})
+    o = cls()
+    o.v = 7
+    o.items = [1, 2]
+    loc = {'o': o, 'z': 1} if desc['site'] == 'local' else {'box': {'k': o}, 'z': 1}
+    agent, run, info = snapref.take(loc, [{}])
+    ctx.case()
+    if run.escaped or len(agent.snapshots) != 1:
+        ctx.violation('C02/named/no-snapshot', f'object of an application class named {desc["name"]!r}: snapshots={len(agent.snapshots)}', desc)
+        return
+    snap = agent.snapshots[0]
+    top = {v.name: v.vid for v in snap.frames[0].variables}
+    problems = []
+    for n, v in loc.items():
+        if n not in top:
+            problems.append(('missing', n))
+            continue
+        compare_var(snap, top[n], struct(v, 3, frozenset()), n, problems)
+    ctx.nt(('named', desc['name'], desc['site']))
+    ctx.outcome(('named', len(snap.var_lookup)))
+    if problems:
+        p = problems[0]
+        ctx.violation(f'C02/named/variable-{p[0]}', f'object of an application class named {desc["name"]!r} ({desc["site"]}): {p[1]}: recorded '
+                      f'{p[2] if len(p) > 2 else None!r}, real {p[3] if len(p) > 3 else None!r}', desc)
 
 
 # ------------------------------------------------------------------------------ reference structure
@@ -224,6 +261,8 @@ def run_case(ctx, desc):
             one_graph(ctx, {'k': 'graph', 'spec': spec})
     elif desc['k'] == 'graph':
         one_graph(ctx, desc)
+    elif desc['k'] == 'named':
+        named_case(ctx, desc)
     else:
         conc(ctx, desc)
 
